@@ -53,21 +53,30 @@ type c19Case struct {
 }
 
 // slack granted to the cleaner: its 1 s tick plus scheduling delay
-const c19CleanerSlack = 5 * time.Second
+const c19CleanerSlack = 2500 * time.Millisecond
+
+// c19ExtraSlack is added to the cleaner slack: three times the worst timer
+// lateness observed in this process while the batch ran (a loaded machine wakes
+// timers late; that must never look like a late cleaner).
+var c19ExtraSlack time.Duration
 
 func genC19History(t *rapid.T) c19History {
-	h := c19History{LifetimeMs: rapid.SampledFrom([]int{300, 500, 900, 1000, 1100, 1700}).Draw(t, "lifetime"), ViaStats: rapid.Bool().Draw(t, "viastats")}
+	h := c19History{LifetimeMs: rapid.SampledFrom([]int{300, 500, 900, 1000, 1100, 1700, 2500, 3000}).Draw(t, "lifetime"), ViaStats: rapid.Bool().Draw(t, "viastats")}
 	n := rapid.IntRange(1, 8).Draw(t, "nadds")
+	if rapid.IntRange(0, 2).Draw(t, "dense") == 0 {
+		// a steady stream: one early sample followed by many that stay live after it expired
+		n = rapid.IntRange(10, 24).Draw(t, "ndense")
+	}
 	for i := 0; i < n; i++ {
-		h.Adds = append(h.Adds, c19Add{AtMs: rapid.IntRange(0, 2500).Draw(t, "at"), Value: int64(1000*(i+1) + rapid.IntRange(1, 999).Draw(t, "v"))})
+		h.Adds = append(h.Adds, c19Add{AtMs: rapid.IntRange(0, 7000).Draw(t, "at"), Value: int64(1000*(i+1) + rapid.IntRange(1, 999).Draw(t, "v"))})
 	}
 	sort.Slice(h.Adds, func(i, j int) bool { return h.Adds[i].AtMs < h.Adds[j].AtMs })
 	m := rapid.IntRange(2, 8).Draw(t, "nreads")
 	for i := 0; i < m; i++ {
-		h.ReadsMs = append(h.ReadsMs, rapid.IntRange(0, 9500).Draw(t, "read"))
+		h.ReadsMs = append(h.ReadsMs, rapid.IntRange(0, 12000).Draw(t, "read"))
 	}
 	// one read in the region where everything must be gone
-	h.ReadsMs = append(h.ReadsMs, 2500+h.LifetimeMs+int(c19CleanerSlack/time.Millisecond)+300)
+	h.ReadsMs = append(h.ReadsMs, 7000+h.LifetimeMs+int(c19CleanerSlack/time.Millisecond)+300)
 	sort.Ints(h.ReadsMs)
 	return h
 }
@@ -138,7 +147,7 @@ func c19CheckHistory(h c19History, o c19Obs) (key, msg string, nontrivial bool) 
 			if addedBeforeRead && o.addBefore[a].Add(life).After(o.readEnd[r]) {
 				must[v] = true
 			}
-			if !o.addAfter[a].Add(life).Before(o.readStart[r].Add(-c19CleanerSlack)) {
+			if !o.addAfter[a].Add(life).Before(o.readStart[r].Add(-c19CleanerSlack - c19ExtraSlack)) {
 				may[v] = true
 			}
 		}
@@ -483,6 +492,24 @@ func TestC19(t *testing.T) {
 		}
 		obs := make([]c19Obs, n)
 		errs := make([]error, n)
+		// timer lateness monitor
+		stopMon := make(chan struct{})
+		var maxLate time.Duration
+		monDone := make(chan struct{})
+		go func() {
+			defer close(monDone)
+			for {
+				t0 := time.Now()
+				select {
+				case <-stopMon:
+					return
+				case <-time.After(50 * time.Millisecond):
+				}
+				if late := time.Since(t0) - 50*time.Millisecond; late > maxLate {
+					maxLate = late
+				}
+			}
+		}()
 		var wg sync.WaitGroup
 		for i := range hs {
 			wg.Add(1)
@@ -492,6 +519,12 @@ func TestC19(t *testing.T) {
 			}(i)
 		}
 		wg.Wait()
+		close(stopMon)
+		<-monDone
+		c19ExtraSlack = 3 * maxLate
+		if maxLate > 200*time.Millisecond {
+			kit.Note("timers woke up to %v late in this process; cleaner slack widened accordingly", maxLate)
+		}
 		for i := range hs {
 			if errs[i] != nil {
 				t.Fatalf("window: %v", errs[i])
@@ -539,6 +572,37 @@ func TestC19(t *testing.T) {
 			c19CheckQuery(t, hd, wire, remote, true)
 		}
 	}))
+	// (c') samples added concurrently to a fresh key are all exported
+	if kit.Shard() == 1%kit.NShards() {
+		st := metrics.NewStats()
+		rounds := kit.Pick(4000, 40000)
+		for r := 0; r < rounds; r++ {
+			key := fmt.Sprintf("fresh%d", r)
+			start := make(chan struct{})
+			var wg sync.WaitGroup
+			for g := 1; g <= 4; g++ {
+				wg.Add(1)
+				go func(v int64) {
+					defer wg.Done()
+					<-start
+					st.AddSample(key, v)
+				}(int64(g * 10))
+			}
+			close(start)
+			wg.Wait()
+		}
+		got := st.Get()
+		for r := 0; r < rounds; r++ {
+			key := fmt.Sprintf("fresh%d", r)
+			if got[key+".min"] != 10 || got[key+".max"] != 40 || got[key+".avg"] != 25 {
+				kit.Fail(t, "C19", "concurrent-first-samples-lost", c19Case{Part: "concurrent-first-samples", Detail: fmt.Sprintf("round %d of %d", r, rounds)},
+					"four goroutines added 10, 20, 30, 40 to a fresh key at the same time; exported min/max/avg = %d/%d/%d, want 10/40/25", got[key+".min"], got[key+".max"], got[key+".avg"])
+			}
+		}
+		kit.EvalN(int64(rounds))
+		kit.Class("concurrent-first-samples")
+		kit.NonTrivial("concurrent-first-samples")
+	}
 	// (c) counters equal the sum of their increments under concurrency
 	if kit.Shard() == 0 {
 		st := metrics.NewStats()
